@@ -64,3 +64,4 @@ CFG = dict(
          dict(target="FuzzUtilsPEM", seconds=15),
          dict(target="FuzzUppercase", seconds=15),
      ])
+CFG["rule"] += ' Added after independently written breaking changes: Values are also decorated with white space (a decoder that validates a value and then hands it to a library that trims it sees two strings); MAC lines of every base64 length.'
